@@ -4,5 +4,6 @@ CONSTANTS
   Vals = {0, 1, 2}
   IsBlob = TRUE
   SetterMarksDirty = TRUE
+  ExplicitSha1Recomputes = TRUE
   ChunkedResetsSha = FALSE
 CHECK_DEADLOCK FALSE
